@@ -2802,6 +2802,8 @@ sc_notify_payload (sc_array_t * receivers, sc_array_t * senders,
     if (out_payload) {
       SC_ASSERT (SC_ARRAY_IS_OWNER (out_payload));
       SC_ASSERT (out_payload->elem_size == in_payload->elem_size);
+      /* output only: items of an earlier call must not survive */
+      sc_array_reset (out_payload);
     }
     else {
       SC_ASSERT (SC_ARRAY_IS_OWNER (in_payload));
